@@ -22,6 +22,8 @@ import "fmt"
 import "bytes"
 import "io"
 
+import "github.com/pbenner/autodiff/verifhook"
+
 /* -------------------------------------------------------------------------- */
 
 type AvlNode struct {
@@ -249,6 +251,7 @@ func (obj *AvlNode) insert(i int, parent *AvlNode) (bool, bool) {
 /* -------------------------------------------------------------------------- */
 
 func (obj *AvlNode) rotateLL() {
+  verifhook.Count("avl.rotateLL")
   a1 := obj.Left
   a2 := obj.Right
 
@@ -264,6 +267,7 @@ func (obj *AvlNode) rotateLL() {
 }
 
 func (obj *AvlNode) rotateLR() {
+  verifhook.Count("avl.rotateLR")
   a1 := obj.Left
   a2 :=  a1.Right
 
@@ -288,6 +292,7 @@ func (obj *AvlNode) rotateLR() {
 }
 
 func (obj *AvlNode) rotateRR() {
+  verifhook.Count("avl.rotateRR")
   a1 := obj.Right
   a2 := obj.Left
 
@@ -303,6 +308,7 @@ func (obj *AvlNode) rotateRR() {
 }
 
 func (obj *AvlNode) rotateRL() {
+  verifhook.Count("avl.rotateRL")
   a1 := obj.Right
   a2 :=  a1.Left
 
@@ -355,17 +361,21 @@ func (obj *AvlNode) delete(i int, parent *AvlNode) (*AvlNode, bool, bool) {
   // this node must be deleted
   obj.Deleted = true
   if obj.Right == nil && obj.Left == nil {
+    verifhook.Count("avl.delete.leaf")
     return nil, true, false
   }
   if obj.Right == nil {
     obj.Left.Parent = nil
+    verifhook.Count("avl.delete.leftOnly")
     return obj.Left, true, false
   }
   if obj.Left == nil {
     obj.Right.Parent = nil
+    verifhook.Count("avl.delete.rightOnly")
     return obj.Right, true, false
   }
   n_, balanced := obj.Left.deleteRec(obj)
+  verifhook.Count("avl.delete.twoChildren")
   obj = obj.replace(n_)
   if !balanced {
     balanced = obj.balance1(balanced)
